@@ -618,6 +618,6 @@ func init() {
 		Run:            c10Run,
 		Replay:         c10Replay,
 		QuickBudget:    150 * time.Second,
-		ThoroughBudget: 15 * time.Minute,
+		ThoroughBudget: 8 * time.Minute,
 	})
 }
